@@ -194,7 +194,7 @@ class Aligner:
                         ok = True
                         break
             if not ok:
-                self.unmatched.append((ea[1], site))
+                self.unmatched.append((ea[1], site, [str(a)[:160] for a in ea[2]], [[str(a)[:160] for a in eb[2]] for eb in cands[:4]]))
         return self
 
 
